@@ -63,7 +63,7 @@ def unbounded(text: str) -> bool:
         k = line.count("**")
         if k == 0:
             continue
-        if k >= 2 and not line.strip().startswith("@print 2 ** 2 ** 2 ** 2"):
+        if k >= 2 and not line.strip().startswith(("@print 2 ** 2 ** 2 ** 2", "@print 1 ** 1 ** 1")):
             return True
         for m in _NUM.findall(line):
             try:
@@ -171,6 +171,9 @@ CORNERS = ["@assert (-8) ** (1/3) == -2", "@print (10**400) ** 0.5", "@print '\\
            "@print " + "(" * 12 + "1" + ")" * 12, "@print " + "-" * 1 + "(" + "-(" * 10 + "1" + ")" * 10 + ")", "@print " + "{" * 10 + "1" + "}" * 10,
            "ns.Svc.1.0 s\n@print _offset_", "uint8 a\nns.Svc.1.0 s\n@assert _offset_ % 8 == {0}", "@union\nuint8 a\nns.Svc.1.0 s\n@print _offset_",
            "ns.Svc.1.0[<=2] s\n@print _offset_", "@print ns.Svc.1.0", "@print {ns.Svc.1.0}", "@assert ns.Svc.1.0 == ns.Svc.1.0",
+           "@print " + "(" * 50 + "1" + ")" * 50, "@print " + "(" * 400 + "1" + ")" * 400, "@print " + "{" * 90 + "1" + "}" * 90,
+           "uint8[<=" + "(" * 80 + "1" + ")" * 80 + "] a", "@print 1" + " ** 1" * 3000, "@print 1" + " + 1" * 3000, "@print " + "!" * 3000 + "true",
+           "uint8 X = " + "-(" * 200 + "1" + ")" * 200, "@assert " + "(" * 45 + "true" + ")" * 45, "@print " + "(" * 60 + "1" + ")" * 59,
            "@print 2 ** 2 ** 2 ** 2", "@print 1" + "0" * 400, "uint8 " + "a" * 3000, "@print '" + "x" * 5000 + "'", "# " + "c" * 10000]
 
 @core.safe
@@ -347,10 +350,10 @@ def run(ctx):
                 "directive, literal form and targeted corner expression) of three seed definitions, and (sampled) double "
                 "mutations; each text is read: model or InvalidDefinitionError with a path. Every state of Expr.tla's operator x operand-kind grid "
                 "(17 binary, 3 unary, 4 attribute operators x 20 operand kinds incl. data types and sets of sets / types) is "
-                "placed in five expression contexts (@print, constant, capacity, @assert, @extent). 45 corner texts, seeded character "
+                "placed in five expression contexts (@print, constant, capacity, @assert, @extent). 55 corner texts (incl. nesting of 45..400 levels and chains of 3 000 operators), seeded character "
                 "noise incl. control characters and byte sequences that are not UTF-8, 36 file-name shapes (incl. directories and dangling / looping links named like definitions) and 6 duplicate / case-variant file sets are added. "
                 "Non-trivial = input that is rejected; distinct by hash of the mutation list / text")
-    ctx.assumptions = ["nesting is bounded at 12 levels, exponents are small (towers such as 2**2**2**2**2**2 do not terminate "
+    ctx.assumptions = ["exponents are small (towers such as 2**2**2**2**2**2 do not terminate "
                        "in reasonable time and are outside the statement's bounded magnitude)", "all Unicode strings are sampled, not "
                        "enumerated", "TLC's evaluation of the specification"]
     res = tlc.run("MC_Funnel", "Funnel_prop.cfg", tag="c13p")
